@@ -13,8 +13,12 @@ impl<K, V> FxHashMap<K, V> {
     pub fn vp_new() -> (r: Self) ensures r@ == Map::<K, V>::empty() { unimplemented!() }
     #[verifier::external_body]
     pub fn get(&self, k: &K) -> (r: Option<&V>)
-        ensures match r { Some(v) => self@.contains_key(*k) && *v == self@[*k], None => !self@.contains_key(*k) },
+        ensures match r { Option::Some(v) => self@.contains_key(*k) && *v == self@[*k], Option::None => !self@.contains_key(*k) },
     { unimplemented!() }
+}
+impl<K, V> Default for FxHashMap<K, V> {
+    #[verifier::external_body]
+    fn default() -> (r: Self) ensures r@ == Map::<K, V>::empty() { unimplemented!() }
 }
 impl<K, V: VpDefault> FxHashMap<K, V> {
     /// rule R11: `map.entry(k).or_default()` is rewritten to this single call
